@@ -12,10 +12,13 @@
 //                       reference quaternion and through toMatrix33; XYZ vs Matrix44::setEulerAngles;
 //                       extract(M33) vs extract(M44) bitwise, constructors from matrices, rebuild within a flat
 //                       16 eps; extract(Quat); extractEulerXYZ / extractEulerZYX rebuilt from the definition
+//                       the same 4x4 with a non-zero translation row (affine input) must give numerically equal
+//                       angles through Euler::extract(M44), Euler(M44,order), extractEulerXYZ, extractEulerZYX
 //   reorder           : Euler(e, newOrder) for all 24x24 order pairs
 //   extractEuler-2d   : Matrix22/Matrix33::setRotation -> extractEuler
 //   angleMod          : k*pi/6 +- 10^-j up to 100 turns
 //   makeNear-family   : simpleXYZRotation / nearestRotation / makeNear for the six fixed-axis non-repeated orders
+//                       (makeNear with the target given in every one of the 24 orders)
 // The oracle (c11_ref.hpp) never calls the library. Tolerances: see the heads of c11_cases.hpp / c11_near.cpp.
 #include "c11.hpp"
 
